@@ -313,6 +313,26 @@ theorem conditional_simulation_identities (s : CondSystem n m k K p) (last : ℕ
 
 end WholeSample
 
+/-! ### Log-variables: the frame is logarithmized before and delogarithmized after the linear step -/
+
+section LogWrapper
+
+/-- `frame_ds.logarithmize()` … `frame_ds.delogarithmize()` around `_simulate_conditional`, with `lg` / `ex` an abstract
+inverse pair: the conditioning step works on `lg` of a log-variable.  If the observation handed to it is the
+**logarithmized** input value (for a log-variable) and the linear step reproduces its observation (Part A (1)), the
+delogarithmized output equals the input value on the level scale.  (This is what fords/simulators.py has to do with
+`input_data_array`; handing over the level value makes the output `ex target` instead, see notes/C07.md.) -/
+theorem logged_target_hits_level {α : Type} (lg ex : α → α) (hinv : ∀ x, ex (lg x) = x) (isLog : Bool)
+    (target state : α) (hhit : state = if isLog then lg target else target) :
+    (if isLog then ex state else state) = target := by
+  cases isLog <;> simp_all
+
+/-- … and with the level value handed over instead, a log-variable comes out as `ex target` -/
+theorem unlogged_target_misses {α : Type} (ex : α → α) (target state : α) (hhit : state = target) :
+    ex state = ex target := by rw [hhit]
+
+end LogWrapper
+
 /-! ## Part B: the solution recursion, the impact matrix and the inversion -/
 
 section Recursion
